@@ -26,5 +26,8 @@ Example tie_C12_derived :
   /\ Src.h_basis_expand = Expected.h_basis_expand
   /\ Src.h_basis_ggm_expand = Expected.h_basis_ggm_expand
   /\ Src.h_basis_ggm_expand_cast = Expected.h_basis_ggm_expand_cast
-  /\ Src.h_basis_expand_cast = Expected.h_basis_expand_cast.
+  /\ Src.h_basis_expand_cast = Expected.h_basis_expand_cast
+  /\ Src.h_basis_Basis___array_finalize__ = Expected.h_basis_Basis___array_finalize__
+  /\ Src.h_basis_Basis_four_element_traces = Expected.h_basis_Basis_four_element_traces
+  /\ Src.h_basis_Basis_four_element_traces__2 = Expected.h_basis_Basis_four_element_traces__2.
 Proof. repeat split; reflexivity. Qed.
